@@ -1,23 +1,283 @@
-import DoitModel.Proofs.RunAcct
-import DoitModel.Model.RunC09
+import DoitModel.Proofs.C09Pinned
 /-! # C09 — every run terminates; dependency cycles are diagnosed, never hung on
 
-Property theorems only (model: `Model/Run.lean`, `Model/RunC09.lean`; invariants: `Proofs/Run*.lean`, `Proofs/C09*.lean`). -/
+Property theorems only (model: `Model/Run.lean`, `Model/RunC09.lean`; invariants: `Proofs/Run*.lean`, `Proofs/C09*.lean`).
+Quantification: every task table, selection, oracle, flag, set-iteration order, worker interleaving and every reachable
+state (every prefix of every run) of the serial (`Reach`) and of the parallel (`PReach`) transition system.
+
+`Acyclic inp` : some rank function decreases along every dependency edge `Dep inp n d` — task_dep (after the M8 expansion:
+implicit target->file_dep, result_dep, getargs), calc_dep, setup, and everything a (possibly delivered) calc_dep can
+deliver.  The harness decides it per case by a graph search; the monitor `monC09` works on the closure graph of the run. -/
 namespace DoitModel.C09
 open DoitModel.Run
 
+/-! ### no false cycle error -/
+
+/-- the state in which `_dispatcher_generator` calls `_check_deadlock` and finds nobody out at the runner -/
+def DeadlockShape (s : Sys) : Prop :=
+  s.cur = none ∧ s.ready = [] ∧ s.toRun = [] ∧ s.waiting ≠ [] ∧ s.dispatched = []
+
+/-- C09 (no false cycle, the `ancestors` test), serial runner: on an acyclic graph the test
+    `task_name in parent.ancestors` of `_gen_node` never fires — whenever a step of the dispatcher raises the
+    cyclic-dependency error it is `_check_deadlock` in the state `DeadlockShape`.  Proof: `ExecNode.ancestors` is a
+    dependency path ending in the node (`NDep.anc`), every name handed to `_gen_node` is a dependency of the node. -/
+theorem C09_no_false_cycle_ancestors_serial (inp : RunInput) (hac : Acyclic inp) (s : Sys) (hr : Reach inp s)
+    (hsu : s.susp = none) (perm : List Name) (s' : Sys) (hs : dtick inp s perm = some s') (d : Name)
+    (hc : s'.susp = some (.cyclic d)) : DeadlockShape s := by
+  obtain ⟨rank, hrk⟩ := hac
+  exact dtick_cyclic_shape hrk (reach_allN hrk hr) hsu hs d hc
+
+/-- the same for the parallel runners (every worker interleaving, every `numProcess`) -/
+theorem C09_no_false_cycle_ancestors_parallel (inp : RunInput) (hac : Acyclic inp) (s : Sys) (hr : PReach inp s)
+    (hsu : s.susp = none) (perm : List Name) (s' : Sys) (hs : dtick inp s perm = some s') (d : Name)
+    (hc : s'.susp = some (.cyclic d)) : DeadlockShape s := by
+  obtain ⟨rank, hrk⟩ := hac
+  exact dtick_cyclic_shape hrk (preach_allN hrk hr) hsu hs d hc
+
+/-- C09 (no false cycle, `_check_deadlock`), the graph argument: on an acyclic graph, in every reachable state in
+    which some node is parked in `waiting`, some parked node awaits only tasks that are NOT parked (rank descent along
+    `wait_run` / `wait_run_calc`, which hold dependencies only).  So the path that `_check_deadlock` follows from a
+    parked node through awaited parked nodes cannot close. -/
+theorem C09_some_parked_node_awaits_unparked (inp : RunInput) (hac : Acyclic inp) (s : Sys)
+    (hr : Reach inp s ∨ PReach inp s) (hw : s.waiting ≠ []) :
+    ∃ w ∈ s.waiting, ∀ nd, s.nodes w = some nd → ∀ d, (d ∈ nd.waitRun ∨ d ∈ nd.waitRunCalc) → d ∉ s.waiting := by
+  obtain ⟨rank, hrk⟩ := hac
+  have hall : AllN inp rank s := by
+    rcases hr with a | a
+    · exact reach_allN hrk a
+    · exact preach_allN hrk a
+  apply Classical.byContradiction
+  intro hne
+  apply hw
+  apply waiting_descent hrk hall
+  intro w hwm
+  have h1 : ¬ ∀ nd, s.nodes w = some nd → ∀ d, (d ∈ nd.waitRun ∨ d ∈ nd.waitRunCalc) → d ∉ s.waiting :=
+    fun hx => hne ⟨w, hwm, hx⟩
+  have h2 := Classical.not_forall.mp h1
+  obtain ⟨nd, h3⟩ := h2
+  have h4 := Classical.not_imp.mp h3
+  obtain ⟨hn, h5⟩ := h4
+  obtain ⟨d, h6⟩ := Classical.not_forall.mp h5
+  obtain ⟨hd, h7⟩ := Classical.not_imp.mp h6
+  exact ⟨nd, hn, d, hd, Classical.not_not.mp h7⟩
+
+/-- the full statement: on an acyclic graph no reachable state has the dispatcher ended by the cyclic error.
+    NOT proved as a whole.  Proved: the `ancestors` test never fires (`C09_no_false_cycle_ancestors_*`), and in the
+    `_check_deadlock` state some parked node awaits only unparked tasks (`C09_some_parked_node_awaits_unparked`).
+    Missing link (invariants I5/I6 of DESIGN §4 for `waiting_me` / `dispatched`, not yet proved over the model): in
+    `DeadlockShape` every awaited task is itself parked — an awaited task is created and unfinished, and an unfinished
+    node that is neither current, ready nor out at the runner is parked with a non-empty wait set.  The monitor
+    evaluates the full statement on every implementation run. -/
+def C09_no_false_cycle_full : Prop :=
+  ∀ inp : RunInput, Acyclic inp → ∀ s, (Reach inp s ∨ PReach inp s) → ∀ d, s.susp ≠ some (.cyclic d)
+
+/-! ### "hold on" -/
+
+/-- C09 (no deadlock, dispatcher side; the repair of F-C09a): the dispatcher answers `"hold on"` only while a node it
+    handed to the runner has not been given back (`dispatched ≠ []`); when every remaining node waits and nothing is
+    out, it raises the cyclic error instead.  Holds in every state (no hypothesis). -/
+theorem C09_holdOn_needs_dispatched (inp : RunInput) (s s' : Sys) (perm : List Name) (hsu : s.susp = none)
+    (hs : dtick inp s perm = some s') (hh : s'.susp = some .holdOn) : s.dispatched ≠ [] ∧ s'.dispatched = s.dispatched := by
+  have aw : ∀ (n : Name) (nd : Node) (ds : List Name) (c : Bool) (pc' : PC),
+      (addWaitRun inp s n nd ds c pc').susp ≠ some .holdOn := by
+    intro n nd ds c pc'; rw [addWaitRun_susp]; simp [hsu]
+  have gs : ∀ (n : Name) (nd : Node) (x : Name) (pc' : PC), (genStep inp s n nd x pc').susp ≠ some .holdOn := by
+    intro n nd x pc'; unfold genStep
+    cases s.nodes x with
+    | none => simp [setNode, hsu]
+    | some y => simp only []; split <;> simp [setNode, hsu]
+  unfold dtick at hs
+  cases hcur : s.cur with
+  | some n =>
+    simp only [hcur] at hs
+    cases hn : s.nodes n with
+    | none => simp only [hn] at hs; cases hs; simp at hh
+    | some nd =>
+      simp only [hn] at hs
+      exfalso
+      unfold nodeStep at hs
+      cases hpc : nd.pc with
+      | loopTop => simp only [hpc] at hs; split at hs <;> cases hs; simp [setNode, hsu] at hh
+      | calcIter todo =>
+        simp only [hpc] at hs
+        cases todo with
+        | cons x xs => cases hs; exact gs _ _ _ _ hh
+        | nil => cases hs; exact aw _ _ _ _ _ hh
+      | taskIter todo =>
+        simp only [hpc] at hs
+        cases todo with
+        | cons x xs => cases hs; exact gs _ _ _ _ hh
+        | nil => cases hs; exact aw _ _ _ _ _ hh
+      | afterDeps =>
+        simp only [hpc] at hs
+        split at hs
+        · cases hs; simp [setNode, hsu] at hh
+        · split at hs <;> (cases hs; simp [setNode, hsu] at hh)
+      | self1 => simp only [hpc] at hs; cases hs; simp at hh
+      | afterSelf1 =>
+        simp only [hpc] at hs
+        split at hs
+        · cases hs; simp [setNode, hsu] at hh
+        · split at hs <;> (cases hs; simp [setNode, hsu] at hh)
+      | setupDecide => simp only [hpc] at hs; split at hs <;> (cases hs; simp [setNode, hsu] at hh)
+      | setupIter todo =>
+        simp only [hpc] at hs
+        cases todo with
+        | cons x xs => cases hs; exact gs _ _ _ _ hh
+        | nil => cases hs; exact aw _ _ _ _ _ hh
+      | afterSetup => simp only [hpc] at hs; split at hs <;> (cases hs; simp [setNode, hsu] at hh)
+      | self2 => simp only [hpc] at hs; cases hs; simp at hh
+      | afterSelf2 => simp only [hpc] at hs; cases hs; simp [setNode, hsu] at hh
+      | done => simp only [hpc] at hs; cases hs; simp [hsu] at hh
+  | none =>
+    simp only [hcur] at hs
+    cases hrd : s.ready with
+    | cons r rs => simp only [hrd] at hs; cases hs; simp [hsu] at hh
+    | nil =>
+      simp only [hrd] at hs
+      cases htr : s.toRun with
+      | cons t ts =>
+        simp only [htr] at hs
+        split at hs <;> (cases hs; simp [setNode, hsu] at hh)
+      | nil =>
+        simp only [htr] at hs
+        split at hs
+        · split at hs
+          · cases hs; simp at hh
+          · rename_i hdp; cases hs; exact ⟨hdp, rfl⟩
+        · cases hs; simp at hh
+
+/-- the full no-deadlock statement: on an acyclic graph (in fact on any graph, after the repair) the dispatcher never
+    answers `"hold on"` while nothing is in flight.  NOT proved: `C09_holdOn_needs_dispatched` gives `dispatched ≠ []`;
+    that every dispatched node is at the runner (being selected, in the job queue, executing, in the result queue, or
+    about to be fed back) is the accounting invariant still missing. -/
+def C09_no_deadlock_full : Prop :=
+  ∀ inp : RunInput, ∀ s, PReach inp s → s.susp = some .holdOn →
+    ∃ n, n ∈ s.dispatched ∧ (InFlight s n ∨ sentBack s = some n)
+
+/-! ### a raised cyclic error ends the run with exit code 3 -/
+
+/-- serial runner: once the dispatcher has raised the cyclic error, the next step of the runner leaves `run_tasks`
+    with that exception (`run_all` still calls `finish()`), and the exit code of the command is 3 from then on -/
+theorem C09_cyclic_ends_run_serial (inp : RunInput) (s : Sys) (d : Name) (perm : List Name)
+    (h1 : s.rpc = .sWait) (h2 : s.susp = some (.cyclic d)) :
+    serialStep inp s perm = some (raise s .cyclic) ∧ exitCode (raise s .cyclic) = 3 ∧
+    exitCode (finishRun (raise s .cyclic)) = 3 ∧ (finishRun (raise s .cyclic)).rpc = .halted := by
+  refine ⟨by simp [serialStep, h1, h2], rfl, rfl, rfl⟩
+
+/-- parallel runners: the same inside `get_next_job`, also while the workers are being started (`ret = startLoop k`:
+    the exception leaves `_run_start_processes`; commit 74b6e8a terminates the workers already started) -/
+theorem C09_cyclic_ends_run_parallel (inp : RunInput) (s : Sys) (d : Name) (perm : List Name) (ret : Ret)
+    (h1 : s.rpc = .gWait ret) (h2 : s.susp = some (.cyclic d)) :
+    mainStep inp s perm = some (raise s .cyclic) ∧ exitCode (raise s .cyclic) = 3 ∧
+    exitCode (finishRun (raise s .cyclic)) = 3 ∧ (finishRun (raise s .cyclic)).rpc = .halted := by
+  refine ⟨by simp [mainStep, h1, h2], rfl, rfl, rfl⟩
+
+/-! ### termination and diagnosis: full statements (monitored on every implementation run, not proved) -/
+
+/-- every run of the model is finite: there is no infinite sequence of enabled choices.  NOT proved (the potential
+    function of DESIGN §5 C09 is not built); the harness runs every case under a watchdog instead. -/
+def C09_terminates_full : Prop :=
+  ∀ inp : RunInput, ¬ ∃ (f : Nat → Sys) (c : Nat → Choice), f 0 = init inp ∧ ∀ i, stepOf inp (f i) (c i) = some (f (i + 1))
+
+/-- a cycle in the closure of the selection is diagnosed: a run that ends normally (no error, not stopped by a
+    failure) has an acyclic closure graph, and no task on a cycle is ever started.  NOT proved as a whole (needs the
+    order invariant "every terminal report of a task comes after the terminal reports of its dependencies" beyond
+    C01's `go`-events); instances: `C09_common_parent_diagnosed*`. -/
+def C09_cycle_diagnosed_full : Prop :=
+  ∀ inp : RunInput, ∀ s, (Reach inp s ∨ PReach inp s) → ∀ nTasks : Nat,
+    (s.rpc = .halted → s.halt = .none → s.stop = false → cycleTasks inp nTasks (trace inp s) = []) ∧
+    (∀ t ∈ cycleTasks inp nTasks (trace inp s), s.events.countP (Ev.isStartOf t) = 0)
+
+/-! ### instances, counterexamples for the dispatcher before the repair, non-vacuity -/
+
 /-- `a -> {b, c}`, `b -> c`, `c -> b` (tasks 0, 1, 2): the cycle is first reached from the common parent `a`, so
-    neither member is an ancestor of the other -/
+    neither member is an ancestor of the other (finding F-C09a) -/
 def exCommonParent : RunInput :=
   { taskDep := fun n => if n = 0 then [1, 2] else if n = 1 then [2] else if n = 2 then [1] else []
     calcDep := fun _ => [], setup := fun _ => [], sel := [0] }
 
 /-- the repaired dispatcher diagnoses it (serial runner): the run ends with the cyclic-dependency error, exit code 3,
-    and nothing was executed -/
+    and nothing was executed; the monitor accepts the model's own observables -/
 theorem C09_common_parent_diagnosed :
     ∃ s, Reach exCommonParent s ∧ s.rpc = .halted ∧ s.halt = .cyclic ∧ exitCode s = 3 ∧
-      s.events.all (fun e => match e with | .start _ _ => false | _ => true) = true :=
+      s.events.all (fun e => match e with | .start _ _ => false | _ => true) = true ∧
+      monC09 exCommonParent 3 (trace exCommonParent s) { exit := 3, errCyclic := true, errWait := false, hung := false } = true :=
   ⟨_, autoRun_reach (by decide) false false 200 _ Reach.init, by decide +kernel, by decide +kernel,
-    by decide +kernel, by decide +kernel⟩
+    by decide +kernel, by decide +kernel, by decide +kernel⟩
+
+/-- … and with two worker threads -/
+theorem C09_common_parent_diagnosed_parallel :
+    ∃ s, PReach { exCommonParent with runner := .thread, numProc := 2 } s ∧ s.rpc = .halted ∧ s.halt = .cyclic ∧
+      exitCode s = 3 :=
+  ⟨_, autoRun_preach (by decide) false false 200 _ PReach.init, by decide +kernel, by decide +kernel,
+    by decide +kernel⟩
+
+/-- the pinned dispatcher (no `_check_deadlock`), serial runner: the same input ends in an internal error
+    (`select_task("hold on")`: AttributeError) instead of the diagnosis, and the monitor rejects that run -/
+theorem C09_pinned_serial_counterexample :
+    ∃ cs s, runPinned exCommonParent (init exCommonParent) cs = some s ∧ s.rpc = .halted ∧ s.halt = .crash ∧
+      monC09 exCommonParent 3 (trace exCommonParent s) { exit := 3, errCyclic := false, errWait := true, hung := false } = false :=
+  ⟨_, _, runPinned_auto exCommonParent 200 (init exCommonParent), by decide +kernel, by decide +kernel,
+    by decide +kernel⟩
+
+/-- the pinned dispatcher, two workers: the run reaches a state in which the main thread blocks in `result_q.get()`
+    for ever — nothing queued, nothing executing, both workers parked on a `JobHold` -/
+theorem C09_pinned_parallel_counterexample :
+    ∃ cs s, runPinned { exCommonParent with runner := .thread, numProc := 2 }
+        (init { exCommonParent with runner := .thread, numProc := 2 }) cs = some s ∧
+      hungState s 2 = true ∧ mainStep { exCommonParent with runner := .thread, numProc := 2 } s [] = none :=
+  ⟨_, _, runPinned_auto _ 200 _, by decide +kernel, by decide +kernel⟩
+
+/-- an acyclic input with every edge kind: `3 -> 1, 2` (task_dep), `1 -> 0` (task_dep), `2 -> 0` (calc_dep),
+    `3 -> 4` (setup) -/
+def exAcyclic : RunInput :=
+  { taskDep := fun n => if n = 3 then [1, 2] else if n = 1 then [0] else []
+    calcDep := fun n => if n = 2 then [0] else []
+    setup := fun n => if n = 3 then [4] else []
+    sel := [3] }
+
+theorem exAcyclic_calcOf : ∀ n c, CalcOf exAcyclic n c → n = 2 ∧ c = 0 := by
+  intro n c h
+  induction h with
+  | base h =>
+    simp only [exAcyclic] at h
+    split at h
+    · rename_i hn; simp at h; exact ⟨hn, h⟩
+    · simp at h
+  | res _ h _ => simp [exAcyclic] at h
+
+/-- the hypothesis `Acyclic` is satisfiable by a graph with all edge kinds … -/
+theorem C09_exAcyclic_acyclic : Acyclic exAcyclic := by
+  refine ⟨fun n => if n = 4 then 0 else n + 1, ?_⟩
+  intro n d h
+  cases h with
+  | task h =>
+    simp only [exAcyclic] at h
+    split at h
+    · simp at h; rcases h with rfl | rfl <;> simp_all
+    · split at h
+      · simp at h; subst h; simp_all
+      · simp at h
+  | ofCalc h => obtain ⟨rfl, rfl⟩ := exAcyclic_calcOf _ _ h; simp
+  | setup h =>
+    simp only [exAcyclic] at h
+    split at h
+    · simp at h; subst h; simp_all
+    · simp at h
+  | resT _ h => simp [exAcyclic] at h
+  | resF _ h => simp [exAcyclic] at h
+
+/-- … on which the run ends normally after executing all five tasks (so the theorems above are about runs that do
+    pass through `waiting` and `"hold on"` states: three workers, two of them idle most of the time) -/
+example : ∃ s, PReach { exAcyclic with runner := .thread, numProc := 3 } s ∧ s.rpc = .halted ∧ s.halt = .none ∧
+    ((List.range 5).all fun t => s.events.countP (Ev.isStartOf t) == 1) = true :=
+  ⟨_, autoRun_preach (by decide) false true 800 _ PReach.init, by decide +kernel, by decide +kernel,
+    by decide +kernel⟩
+
+/-- a reachable state of that run in which the dispatcher did answer `"hold on"` (with a task in flight) -/
+example : ∃ s, PReach { exAcyclic with runner := .thread, numProc := 3 } s ∧ s.susp = some .holdOn ∧
+    s.dispatched ≠ [] :=
+  ⟨_, autoRun_preach (by decide) false true 40 _ PReach.init, by decide +kernel, by decide +kernel⟩
 
 end DoitModel.C09
